@@ -96,7 +96,7 @@ Proof. exact results_reduced. Qed.
 Print Assumptions C07_results_reduced.
 
 (* every number/number call of the modelled implementation yields an int or a rational *)
-Theorem C07_stays_number : forall o lsym rsym a b, (o = OMod -> ~ b == 0) -> is_number (run_op o lsym rsym a b).
+Theorem C07_stays_number : forall o a b, (o = OMod -> ~ b == 0) -> is_number (run_op o a b).
 Proof. exact run_op_number. Qed.
 Print Assumptions C07_stays_number.
 
@@ -164,54 +164,16 @@ Theorem C07_tree_total : forall e, eval_model e == eval_Q e.
 Proof. exact tree_total. Qed.
 Print Assumptions C07_tree_total.
 
-(* ---- the implementation's floor division: `lhs // rhs` on sympy operand classes ---- *)
-(* The model of integer_divide as it is today (vfloordiv_impl, operands tagged "is a
-   sympy number") is the exact floor division outside two recorded operand classes:
-   (1) sympy Integer // non-integer Rational with an exact negative quotient,
-   (2) non-integer Rational (other than 1/2) // sympy Integer with operands of opposite sign. *)
-Theorem C07_floordiv_impl_partial : forall lsym rsym a b,
-  floordiv_defect_class lsym rsym a b = false -> vfloordiv_impl lsym rsym a b = vfloordiv a b.
-Proof. exact floordiv_impl_partial. Qed.
-Print Assumptions C07_floordiv_impl_partial.
-
-Theorem C07_floordiv_impl_pyint : forall a b, vfloordiv_impl false false a b = vfloordiv a b.
-Proof. exact floordiv_impl_pyint. Qed.
-Print Assumptions C07_floordiv_impl_pyint.
-
-(* the full statement `forall lsym rsym a b, vfloordiv_impl lsym rsym a b == vfloordiv a b`
-   is false in both classes: Integer(-4) // Rational(1,2) = -9, Rational(-7,2) // Integer(1) = -3 *)
-Theorem C07_floordiv_impl_refuted :
-  (exists a b, ~ b == 0 /\ ~ vfloordiv_impl true true a b == vfloordiv a b)
-  /\ (exists a b, ~ b == 0 /\ ~ vfloordiv_impl true true a b == vfloordiv a b /\ is_int a = false).
-Proof. exact floordiv_impl_refuted. Qed.
-Print Assumptions C07_floordiv_impl_refuted.
-
-(* what the implementation returns inside the classes *)
-Theorem C07_floordiv_impl_off_by_one : forall lsym rsym a b, ~ b == 0 ->
-  floordiv_quirk lsym a b = true -> vfloordiv_impl lsym rsym a b == vfloordiv a b - 1.
-Proof. exact floordiv_impl_quirk. Qed.
-Print Assumptions C07_floordiv_impl_off_by_one.
-
-Theorem C07_floordiv_impl_trunc : forall lsym rsym a b, ~ b == 0 ->
-  floordiv_trunc_path rsym a b = true ->
-  vfloordiv_impl lsym rsym a b = inject_Z (Qfloor (inject_Z (qtrunc a) / b)).
-Proof. exact floordiv_impl_trunc. Qed.
-Print Assumptions C07_floordiv_impl_trunc.
-
-Theorem C07_floordiv_impl_is_int : forall lsym rsym a b, is_int (vfloordiv_impl lsym rsym a b) = true.
-Proof. exact floordiv_impl_int. Qed.
-Print Assumptions C07_floordiv_impl_is_int.
-
-(* all six observable results, outside those classes and away from zero divisors *)
-Theorem C07_run_op_partial : forall o lsym rsym a b, ~ b == 0 -> floordiv_defect_class lsym rsym a b = false ->
-  run_op o lsym rsym a b =
+(* ---- all six observable results of the modelled calls, away from zero divisors ----- *)
+Theorem C07_run_op_exact : forall o a b, ~ b == 0 ->
+  run_op o a b =
   canon (match o with
          | OAdd => a + b | OSub => a - b | OMul => a * b | ODiv => a / b
          | OMod => a - b * inject_Z (Qfloor (a / b))
          | OFloordiv => inject_Z (Qfloor (a / b))
          end).
 Proof. exact run_op_exact. Qed.
-Print Assumptions C07_run_op_partial.
+Print Assumptions C07_run_op_exact.
 
 (* ---- non-vacuity ------------------------------------------------------------------- *)
 Example C07_ex_ops :
@@ -244,22 +206,6 @@ Example C07_ex_int : (-3 <> 0)%Z /\ vfloordiv (inject_Z 7) (inject_Z (-3)) = inj
   /\ vmod (inject_Z 7) (inject_Z (-3)) = inject_Z (-2).
 Proof. exact ex_int. Qed.
 Print Assumptions C07_ex_int.
-
-Example C07_ex_quirk :
-  floordiv_quirk true (-4 # 1) (1 # 2) = true
-  /\ vfloordiv_impl true true (-4 # 1) (1 # 2) = (-9 # 1) /\ vfloordiv (-4 # 1) (1 # 2) = (-8 # 1)
-  /\ floordiv_quirk true (-7 # 1) (1 # 2) = true
-  /\ floordiv_quirk true (-7 # 2) (1 # 2) = false /\ floordiv_quirk true (4 # 1) (1 # 2) = false
-  /\ floordiv_quirk true (-4 # 1) (3 # 5) = false /\ floordiv_quirk false (-4 # 1) (1 # 2) = false
-  /\ floordiv_trunc_path true (-7 # 2) (1 # 1) = true
-  /\ vfloordiv_impl true true (-7 # 2) (1 # 1) = (-3 # 1) /\ vfloordiv (-7 # 2) (1 # 1) = (-4 # 1)
-  /\ vfloordiv_impl true true (7 # 2) (-1 # 1) = (-3 # 1) /\ vfloordiv (7 # 2) (-1 # 1) = (-4 # 1)
-  /\ floordiv_trunc_path false (-7 # 2) (1 # 1) = false /\ floordiv_trunc_path true (1 # 2) (-8 # 1) = false
-  /\ floordiv_defect_class true true (7 # 2) (3 # 1) = false /\ vfloordiv_impl true true (7 # 2) (3 # 1) = (1 # 1)
-  /\ floordiv_defect_class true true (-7 # 2) (2 # 1) = true /\ vfloordiv_impl true true (-7 # 2) (2 # 1) = vfloordiv (-7 # 2) (2 # 1)
-  /\ floordiv_defect_class false false (-7 # 2) (2 # 1) = false /\ floordiv_defect_class true true (-7 # 2) (2 # 3) = false.
-Proof. exact ex_quirk. Qed.
-Print Assumptions C07_ex_quirk.
 
 Example C07_ex_tree : divisors_nonzero ex_tree /\ eval_model ex_tree = (43 # 28).
 Proof. exact ex_tree_value. Qed.
